@@ -244,3 +244,47 @@ def _text_hop_sami(s):
     if len(caps) != 1:
         return "cue count"
     return "" if " ".join(caps[0].get_text().split()) == " ".join(s.split()) else "text"
+
+
+# --- executed two-hop chains on cue structure (concrete times; the shape of the cue is the symbolic choice) ---------
+def _norm_lines(text):
+    out = []
+    for ln in text.replace(" ", " ").split("\n"):
+        ln = " ".join(ln.split())
+        if ln:
+            out.append(ln)
+    return out
+
+
+def struct_chain(f1: int, f2: int, shape: int) -> str:
+    """
+    pre: 0 <= f1 < 3 and 0 <= f2 < 3 and 0 <= shape < 5
+    post: _ == ""
+    """
+    # cue shapes: 0 two lines; 1 an empty line between two lines (two consecutive breaks); 2 a whitespace-only text
+    # between two breaks; 3 three lines; 4 trailing break.  Chain: format f1, then f2, then both once more.
+    T, B = CaptionNode.create_text, CaptionNode.create_break
+    if shape == 0:
+        nodes = [T("one"), B(), T("two")]
+    elif shape == 1:
+        nodes = [T("one"), B(), B(), T("two")]
+    elif shape == 2:
+        nodes = [T("one"), B(), T(" "), B(), T("two")]
+    elif shape == 3:
+        nodes = [T("one"), B(), T("two"), B(), T("three")]
+    else:
+        nodes = [T("one"), B(), T("two"), B()]
+    lang = "und" if (f1 == 2 or f2 == 2) else "en-US"
+    cs = CaptionSet({lang: CaptionList([Caption(1000000, 2000000, nodes), Caption(3000000, 4000000, [T("tail")])])})
+    want = [_norm_lines(c.get_text()) for c in cs.get_captions(lang)]
+    cur = cs
+    for step in range(4):
+        cur = _hop(f1 if step % 2 == 0 else f2, cur)
+        caps = cur.get_captions(cur.get_languages()[0])
+        if len(caps) != 2:
+            return "cue count changed on the chain"
+        if [_norm_lines(c.get_text()) for c in caps] != want:
+            return "text lines changed on the chain"
+        if [(c.start, c.end) for c in caps] != [(1000000, 2000000), (3000000, 4000000)]:
+            return "times changed on the chain"
+    return ""
